@@ -223,6 +223,18 @@ var (
 	}
 )
 
+// cuePanicDocs re-find the escaping evaluator panics of the Cue decoder; they
+// leave the seed corpus once the finding is listed as known.  (The related
+// runaway input `x: ["a"]*18446744073709551615` is deliberately NOT a seed: it
+// never returns and allocates about 1 GiB/s until the watchdog ends the
+// process.)
+func cuePanicDocs() []string {
+	if knownDefect(keyCuePanic) {
+		return nil
+	}
+	return []string{`x: "a"*18446744073709551615`, `x: "ab"*9223372036854775807`, `x: 'ab'*18446744073709551615`}
+}
+
 func mkSeeds(nsel int, docs []string) []textSeed {
 	var s []textSeed
 	for i := 0; i < nsel; i++ {
@@ -239,7 +251,7 @@ var (
 	alphaJSON        = []string{"{", "}", "[", "]", ":", ",", "\"", "\\", " ", "\n", "null", "true", "false", "1", "-", ".", "e", "9", "\"a\"", "\"Name\"", "\"Port\"", "\"Tags\"", "\"Timeout\"", "\"Limits\"", "\"Server\"", "\"Backends\"", "\"database_user\"", "\"other_stuff\"", "\"some_timeout\"", "\"Level\"", "\"Stamp\"", "\"Color\"", "\"1s\"", "\"#fff\"", "\"1.2-x\"", "\\u", "d800", "\x00", "\xff"}
 	alphaYAML        = []string{":", " ", "\n", "-", "  ", "\t", "[", "]", "{", "}", ",", "\"", "'", "#", "&a", "*a", "!!", "!!str", "!!int", "!!binary", "|", ">", "?", "~", "<<", "---", "...", "%", "name", "port", "tags", "timeout", "limits", "server", "backends", "database_user", "other_stuff", "some_timeout", "level", "stamp", "color", "emba", "1", "1s", "x", "0x", "1e9", ".inf", "yes", "\x00", "\xff"}
 	alphaTOML        = []string{"=", " ", "\n", "[", "]", "[[", "]]", "{", "}", ",", ".", "\"", "'", "\"\"\"", "'''", "#", "\\", "Name", "Port", "Tags", "Timeout", "Limits", "Server", "Backends", "database_user", "other_stuff", "some_timeout", "Level", "Stamp", "Color", "1", "1.5", "true", "\"1s\"", "\"x\"", "2020-01-02", "T03:04:05", "Z", "+", "-", "_", "0x", "inf", "nan", "\x00", "\xff"}
-	alphaCue         = []string{":", " ", "\n", "{", "}", "[", "]", ",", "\"", "\\(", ")", "(", "|", "&", "*", "+", "-", "/", "<", ">", "=", "!", "?", "#", "_", "_|_", "...", "for", "in", "if", "let", "import", "package", "int", "string", "null", "true", "Name", "Port", "Tags", "Timeout", "Limits", "database_user", "other_stuff", "some_timeout", "1", "1.5", "\"1s\"", "\"x\"", "x", "'", "\"\"\"", "\x00", "\xff"}
+	alphaCue         = []string{":", " ", "\n", "{", "}", "[", "]", ",", "\"", "\\(", ")", "(", "|", "&", "*", "+", "-", "/", "<", ">", "=", "!", "?", "#", "_", "_|_", "...", "for", "in", "if", "let", "import", "package", "int", "string", "null", "true", "Name", "Port", "Tags", "Timeout", "Limits", "database_user", "other_stuff", "some_timeout", "1", "1.5", "\"1s\"", "\"x\"", "x", "'", "\"\"\"", "\x00", "\xff", "18446744073709551615", "9223372036854775807", "4611686018427387904", "-1"}
 	alphaEnv         = alphaCollections
 	alphaFlag        = []string{"-", "--", "=", "\n", "str", "flag", "i", "i8", "u8", "f32", "c64", "c128", "dur", "when", "ip", "color", "strs", "ints", "i8s", "u16s", "ss", "lists", "set", "ptr-int", "nested-inner", "nested-deep-n", "ea-num", "short", "s", "h", "help", "a", "1", "-1", "256", "1e39", "true", "x", ",", ":", "\"", "10s", "#fff", "(1+2i)", " ", "\x00", "\xff"}
 )
